@@ -36,7 +36,7 @@ namespace {
 constexpr int  kMaxThreads = 64;
 constexpr int  kMaxMutexes = 256;
 
-enum State { stFree = 0, stRunnable, stBlockedMutex, stBlockedJoin, stFinished };
+enum State { stFree = 0, stRunnable, stBlockedMutex, stBlockedJoin, stBlockedCond, stFinished };
 
 struct SimThread
 {
@@ -48,6 +48,9 @@ struct SimThread
    void*               arg = nullptr;
    void*               wait_mutex = nullptr;
    int                 wait_tid = -1;
+   bool                cond_timed = false;      // waiting with a time limit
+   bool                cond_timed_out = false;
+   int64_t             deadline_ns = 0;         // simulated time at which a timed wait expires
    uint64_t            points = 0;
    uintptr_t           stack_lo = 0, stack_hi = 0;
    long long           prio = 0;
@@ -71,6 +74,7 @@ struct Sched
    MutexRec                  mtx[ kMaxMutexes];
    uint64_t                  rng[ 4];
    uint64_t                  since_switch = 0;
+   int64_t                   sim_ns = 0;       // simulated clock of the threads (all clock ids)
    bool                      prio_dirty = false;
    long long                 low_water = 0;
    uint64_t                  change_points[ 8];
@@ -371,14 +375,32 @@ void blockCurrent( int me, int kind)
 {
    ++g.t[ me].points;
    ++g.st.points;
-   const int  next = chooseAfterBlock( me);
+   int  next = chooseAfterBlock( me);
+   if (next < 0)
+   {
+      // nothing can run: simulated time jumps to the earliest deadline of a timed wait
+      int  first = -1;
+      for (int k = 0; k < g.nthreads; ++k)
+         if (g.t[ k].state == stBlockedCond && g.t[ k].cond_timed
+             && (first < 0 || g.t[ k].deadline_ns < g.t[ first].deadline_ns))
+            first = k;
+      if (first >= 0)
+      {
+         if (g.t[ first].deadline_ns > g.sim_ns) g.sim_ns = g.t[ first].deadline_ns;
+         g.t[ first].state = stRunnable;
+         g.t[ first].cond_timed_out = true;
+         g.t[ first].wait_mutex = nullptr;
+         if (first == me) return;   // the caller itself was the timed waiter
+         next = first;
+      }
+   }
    if (next < 0)
    {
       char  msg[ 256];
       int   off = snprintf( msg, sizeof( msg), "no runnable thread; states:");
       for (int k = 0; k < g.nthreads && off < 230; ++k)
          off += snprintf( msg + off, sizeof( msg) - static_cast< size_t>( off), " T%d=%s", k,
-                          g.t[ k].state == stBlockedMutex ? "mutex" : (g.t[ k].state == stBlockedJoin ? "join"
+                          g.t[ k].state == stBlockedMutex ? "mutex" : (g.t[ k].state == stBlockedCond ? "cond" : g.t[ k].state == stBlockedJoin ? "join"
                           : (g.t[ k].state == stFinished ? "done" : "run")));
       fatal( "DEADLOCK", msg);
    }
@@ -499,6 +521,7 @@ void schedBegin( const SchedConfig& cfg)
    g.log_len = 0;
    g.st = SchedStats();
    g.since_switch = 0;
+   g.sim_ns = 0;
    g.low_water = 0;
    g.prio_dirty = false;
    rngSeed( cfg.seed);
@@ -665,7 +688,11 @@ extern "C" int pthread_mutex_trylock( pthread_mutex_t* m)
    return rc;
 }
 
-extern "C" int pthread_mutex_unlock( pthread_mutex_t* m)
+namespace {
+
+/// unlock inside the simulation; with_point = false for the atomic
+/// "release the mutex and wait" of a condition variable
+int simUnlock( pthread_mutex_t* m, bool with_point)
 {
    static decltype( &__interceptor_pthread_mutex_unlock)  real = nullptr;
    if (real == nullptr) real = realFn( &__interceptor_pthread_mutex_unlock, "pthread_mutex_unlock");
@@ -690,8 +717,15 @@ extern "C" int pthread_mutex_unlock( pthread_mutex_t* m)
             }
       }
    }
-   point( pkUnlock);
+   if (with_point) point( pkUnlock);
    return rc;
+}
+
+} // namespace
+
+extern "C" int pthread_mutex_unlock( pthread_mutex_t* m)
+{
+   return simUnlock( m, true);
 }
 
 // ----- one-time initialisation: pthread_once (std::call_once) and the guards
@@ -865,6 +899,103 @@ extern "C" int pthread_once( pthread_once_t* once, void (*init)( void))
    }
 }
 
+// ----- condition variables. No real waiting: the simulated thread releases
+// the mutex, is marked as waiting for the condition and hands the baton on;
+// signal/broadcast make waiters runnable, which then take the mutex again.
+// The mutex operations go through the interposed functions above (and from
+// there to ThreadSanitizer's interceptors), which is where the happens-before
+// edges of a correctly used condition variable come from.
+
+namespace {
+
+int condWait( pthread_cond_t* c, pthread_mutex_t* m, bool timed, const struct timespec* ts = nullptr)
+{
+   const int  me = tl_id;
+   // waiting first, then the mutex goes (without a schedule point): nobody can
+   // signal between the two
+   g.t[ me].state = stBlockedCond;
+   g.t[ me].wait_mutex = c;
+   g.t[ me].cond_timed = timed;
+   g.t[ me].cond_timed_out = false;
+   g.t[ me].deadline_ns = (ts != nullptr) ? (static_cast< int64_t>( ts->tv_sec) - 1700000000LL) * 1000000000LL + ts->tv_nsec : g.sim_ns;
+   simUnlock( m, false);
+   ++g.st.blocked_lock;
+   blockCurrent( me, pkBlock);
+   g.t[ me].state = stRunnable;
+   const bool  timed_out = g.t[ me].cond_timed_out;
+   g.t[ me].cond_timed = false;
+   g.t[ me].cond_timed_out = false;
+   pthread_mutex_lock( m);
+   return timed_out ? ETIMEDOUT : 0;
+}
+
+void condWake( pthread_cond_t* c, bool all)
+{
+   for (int k = 0; k < g.nthreads; ++k)
+      if (g.t[ k].state == stBlockedCond && g.t[ k].wait_mutex == c)
+      {
+         g.t[ k].state = stRunnable;
+         g.t[ k].wait_mutex = nullptr;
+         g.prio_dirty = true;
+         if (!all) break;
+      }
+}
+
+} // namespace
+
+extern "C" int pthread_cond_wait( pthread_cond_t* c, pthread_mutex_t* m)
+{
+   if (tl_id >= 0 && g.active.load())
+      return condWait( c, m, false);
+   static decltype( &pthread_cond_wait)  real = nullptr;
+   if (real == nullptr) real = reinterpret_cast< decltype( real)>( dlsym( RTLD_NEXT, "pthread_cond_wait"));
+   return real( c, m);
+}
+
+extern "C" int pthread_cond_timedwait( pthread_cond_t* c, pthread_mutex_t* m, const struct timespec* ts)
+{
+   if (tl_id >= 0 && g.active.load())
+      return condWait( c, m, true, ts);
+   static decltype( &pthread_cond_timedwait)  real = nullptr;
+   if (real == nullptr) real = reinterpret_cast< decltype( real)>( dlsym( RTLD_NEXT, "pthread_cond_timedwait"));
+   return real( c, m, ts);
+}
+
+extern "C" int pthread_cond_clockwait( pthread_cond_t* c, pthread_mutex_t* m, clockid_t clk, const struct timespec* ts)
+{
+   if (tl_id >= 0 && g.active.load())
+      return condWait( c, m, true, ts);
+   static decltype( &pthread_cond_clockwait)  real = nullptr;
+   if (real == nullptr) real = reinterpret_cast< decltype( real)>( dlsym( RTLD_NEXT, "pthread_cond_clockwait"));
+   return real( c, m, clk, ts);
+}
+
+extern "C" int pthread_cond_signal( pthread_cond_t* c)
+{
+   if (tl_id >= 0 && g.active.load())
+   {
+      condWake( c, false);
+      point( pkUnlock);
+      return 0;
+   }
+   static decltype( &pthread_cond_signal)  real = nullptr;
+   if (real == nullptr) real = reinterpret_cast< decltype( real)>( dlsym( RTLD_NEXT, "pthread_cond_signal"));
+   return real( c);
+}
+
+extern "C" int pthread_cond_broadcast( pthread_cond_t* c)
+{
+   if (tl_id >= 0 && g.active.load())
+   {
+      condWake( c, true);
+      point( pkUnlock);
+      return 0;
+   }
+   static decltype( &pthread_cond_broadcast)  real = nullptr;
+   if (real == nullptr) real = reinterpret_cast< decltype( real)>( dlsym( RTLD_NEXT, "pthread_cond_broadcast"));
+   return real( c);
+}
+
 extern "C" int sched_yield( void)
 {
    if (tl_id >= 0 && g.active.load())
@@ -879,6 +1010,7 @@ extern "C" int usleep( useconds_t usec)
 {
    if (tl_id >= 0 && g.active.load())
    {
+      g.sim_ns += static_cast< int64_t>( usec) * 1000;
       point( pkYield);
       return 0;
    }
@@ -891,6 +1023,7 @@ extern "C" int nanosleep( const struct timespec* req, struct timespec* rem)
 {
    if (tl_id >= 0 && g.active.load())
    {
+      if (req != nullptr) g.sim_ns += static_cast< int64_t>( req->tv_sec) * 1000000000LL + req->tv_nsec;
       point( pkYield);
       return 0;
    }
@@ -903,10 +1036,30 @@ extern "C" int clock_nanosleep( clockid_t clk, int flags, const struct timespec*
 {
    if (tl_id >= 0 && g.active.load())
    {
+      if (req != nullptr)
+      {
+         const int64_t  v = static_cast< int64_t>( req->tv_sec) * 1000000000LL + req->tv_nsec;
+         if (flags & TIMER_ABSTIME) { if (v - 1700000000LL * 1000000000LL > g.sim_ns) g.sim_ns = v - 1700000000LL * 1000000000LL; }
+         else g.sim_ns += v;
+      }
       point( pkYield);
       return 0;
    }
    return syscall( SYS_clock_nanosleep, clk, flags, req, rem) == 0 ? 0 : errno;
+}
+
+// the clock the simulated threads see: stands still except where a sleep or an
+// expired timed wait moves it (deadlines computed by the code under test and
+// the time-outs delivered by this scheduler are then consistent)
+extern "C" int clock_gettime( clockid_t clk, struct timespec* ts)
+{
+   if (tl_id >= 0 && g.active.load() && ts != nullptr)
+   {
+      ts->tv_sec = static_cast< time_t>( 1700000000 + g.sim_ns / 1000000000LL);
+      ts->tv_nsec = static_cast< long>( g.sim_ns % 1000000000LL);
+      return 0;
+   }
+   return static_cast< int>( syscall( SYS_clock_gettime, clk, ts));
 }
 
 // ------------------------------------------- compiler-inserted call-backs
